@@ -3,14 +3,15 @@ import astq
 from rules import cgsize, dsinit
 
 LEVEL = 'other'
-TECHNIQUE = 'affine / interval case analysis of randomx_init_dataset over (count mod 4) x (count < 4) regions, constant-table agreement spec vs C++ vs assembled object, call-sequence and shape rules on the item construction'
+TECHNIQUE = 'affine / interval case analysis of randomx_init_dataset over (count mod 4) x (count < 4) regions, constant-table agreement spec vs C++ vs assembled object, call-sequence and shape rules on the item construction; evaluation of the address-arithmetic slice on a sample set of ranges'
 CLAIM = ('Decides statically, for every (start, count) including 0..3, non-multiples of 4 and the last item: each initialiser call gets a positive multiple of 4 items, its destination '
          'is the requested position (or a stack buffer copied to exactly the requested items), nothing outside [start, start+count) is written and the union is exactly that range - '
          'the clause "writes exactly the requested items" that no test exercises (the suite never calls randomx_init_dataset). Also: the item constants agree in spec, C++ and assembly; '
          'the interpreted and compiled initialiser are selected consistently; initDatasetItem has the step order of spec 7.3. Equality of the computed 64-byte items between compiled and '
-         'interpreted code is numeric and not claimed.')
+         'interpreted code is numeric and not claimed.'
+         ' The range property is additionally decided independently of the shape of the splitting code: the address-arithmetic slice of randomx_init_dataset and of the interpreted initialiser is evaluated for 900+ (start, count, initialiser) cases covering every residue of count mod 4 and ranges at both ends of the dataset (DS-RANGE-EVAL).')
 LEVEL_NOTE = 'Trusted: documented precondition start + count <= item count; the compiled initialiser (hand-written asm + generated SuperscalarHash) writes [S, E) when E - S is a positive multiple of 4 (its loop shape is checked in RACE-ASM, its arithmetic is not).'
-EXPLANATION = 'RACE-RANGE (8 regions x calls), DS-INITSEL, SPEC-DSCONST (16), DS-ITEM.'
+EXPLANATION = 'RACE-RANGE (8 regions x calls), DS-INITSEL, SPEC-DSCONST (16), DS-ITEM. DS-RANGE-EVAL.'
 
 
 def run(ctx, R):
